@@ -421,6 +421,15 @@ P_C14_NewStreamWindow == last.new /\ last.sid \in ids => strWin[last.sid] = eff.
 \* frame size in force at that point of sozu's byte stream
 P_C14_FrameSize == last.k \in {"D", "H", "C", "X"} => last.len <= eff.maxFrame
 
+\* Framing integrity (RFC 9113 4.1): sozu's byte stream is a sequence of WHOLE frames.  Whatever the peer reads at a
+\* frame boundary is a frame sozu meant to send, and a DATA payload holds relayed body bytes only.  "Z" is the trace
+\* validator's name for what no frame of sozu explains: a frame header of an unknown type, foreign bytes inside a
+\* DATA payload - what the peer sees when a control frame (WINDOW_UPDATE, RST_STREAM, PING / SETTINGS ACK, GOAWAY) was
+\* written INSIDE a half-written stream frame; an oversized "X" header is the same thing seen 9 bytes later.  No
+\* action of this module produces "Z": spec/H2Wire.tla (the writer of the connection: partial writes, the zero
+\* buffer, the queues of the read path) shows why the code never does, and which slips do.
+P_C14_WholeFrames == last.k # "Z" /\ (last.k = "X" => last.len <= eff.maxFrame)
+
 \* Concurrency (RFC 9113 5.1.2) and identifiers (5.1.1) of the streams sozu opens
 P_C14_MaxStreams == Role = "client" /\ last.new => Cardinality(Active) <= eff.maxStreams
 P_C14_StreamIds ==
